@@ -5,6 +5,7 @@ import NixModel.Lemmas.C15Hist
 import NixModel.Lemmas.C15Select
 import NixModel.Lemmas.C15Range
 import NixModel.Lemmas.C15Float
+import NixModel.Lemmas.C15FloatRaw
 import NixModel.Lemmas.C15Shape
 import NixModel.Lemmas.C15Poly
 
@@ -291,6 +292,43 @@ theorem C15_float_bound_origin_only (u x o r : Rat) (h : Rounds u (x - o) r) :
     |r - (x - o)| ≤ u * |x - o| :=
   float_origin_only_bound u (x - o) r h
 
+/-- **stored elements that are not doubles** (64-bit integers beyond 2⁵³): `astype(double)` rounds the element
+first (`xf`), then the origin is subtracted and rounded (`yf`), then the loop runs.  The result differs from
+`Σ cₖ (x−o)ᵏ` of the *stored* value by at most the shift of the polynomial under an argument change of `u·|x|`
+plus the rounding bound at the shifted argument — the two terms of the bound the correspondence harness uses
+(`float_bound`: `pert + 4(2n+1)u·cond`, the second being larger than `((1+u)^(3n−2)−1)·cond` by
+`C15_float_bound_linear`'s estimate). -/
+theorem C15_float_bound_inexact_raw (u : Rat) (hu : 0 ≤ u) (c : List Rat) (x o xf yf r : Rat)
+    (hx : Rounds u x xf) (hy : Rounds u (xf - o) yf) (hr : FloatPolyval u yf c r) :
+    |r - polySum c (x - o)|
+      ≤ (polySum (c.map (fun a => |a|)) (|x - o| + u * |x|) - polySum (c.map (fun a => |a|)) |x - o|)
+        + ((1 + u) ^ (3 * c.length - 2) - 1) * polySum (c.map (fun a => |a|)) (|x - o| + u * |x|) := by
+  have h1 := C15_float_bound u hu c xf o yf r hy hr
+  obtain ⟨d, hd, rfl⟩ := hx
+  have hshift : |(x * (1 + d) - o) - (x - o)| ≤ u * |x| := by
+    have e : (x * (1 + d) - o) - (x - o) = d * x := by ring
+    rw [e, abs_mul]
+    exact mul_le_mul_of_nonneg_right hd (abs_nonneg _)
+  have h2 := eval_shift (x - o) (x * (1 + d) - o) (u * |x|) hshift c
+  have hy' : |x * (1 + d) - o| ≤ |x - o| + u * |x| := by
+    have e : x * (1 + d) - o = (x - o) + ((x * (1 + d) - o) - (x - o)) := by ring
+    rw [e]
+    exact le_trans (abs_add_le _ _) (by linarith)
+  have hmono := evalAbs_mono c _ _ (abs_nonneg (x * (1 + d) - o)) hy'
+  have hg : 0 ≤ (1 + u) ^ (3 * c.length - 2) - 1 := g_nonneg u hu _
+  have h3 := mul_le_mul_of_nonneg_left hmono hg
+  simp only [polySum, ← evalAsc_eq_sum] at h1 ⊢
+  unfold evalAbs at h2 h3
+  have htri := abs_add_le (r - evalAsc (x * (1 + d) - o) c) (evalAsc (x * (1 + d) - o) c - evalAsc (x - o) c)
+  have e : r - evalAsc (x * (1 + d) - o) c + (evalAsc (x * (1 + d) - o) c - evalAsc (x - o) c)
+      = r - evalAsc (x - o) c := by ring
+  rw [e] at htri
+  linarith
+
+/-- non-vacuity: the `int64` value `2⁵³ + 1` is stored exactly and read as the double `2⁵³` -/
+example : Rounds (1 / 2 ^ 53) (2 ^ 53 + 1) (2 ^ 53) :=
+  ⟨-1 / (2 ^ 53 + 1), by norm_num [abs_div], by norm_num⟩
+
 /-- non-vacuity: the exact evaluation is one of the float executions the bound speaks about -/
 example (u : Rat) (hu : 0 ≤ u) (y top : Rat) (rest : List Rat) :
     FloatPolyval u y (rest.reverse ++ [top]) (polyvalLoop y top rest) :=
@@ -432,8 +470,32 @@ theorem C15_refused_changes_nothing (a : Arr) (op : Op) (e : Err) (h : (step a o
   | getCoeffs => rfl
   | getOrigin => rfl
   | rawDump => rfl
+  | linkTicks i => simp only [step]; split <;> rfl
   | write v => simp only [step] at h ⊢; split at h <;> simp_all
   | reopen => rfl
+
+/-- **ticks of a range dimension linked to a calibrated array are the stored values**: `dimension.ticks` /
+`DimensionLink.values` read the HDF5 dataset directly, so they do not depend on the calibration at all and
+are raw elements of the array (the property's read paths — array, views, tags — do not include this one;
+positions are therefore looked up among *uncalibrated* ticks). -/
+theorem C15_link_values_raw (a : Arr) (c : Option (List Rat)) (o : Option Rat) (idx : List Int) :
+    linkValues { a with coeffs := c, origin := o } idx = linkValues a idx ∧
+    (∀ vals, linkValues a idx = .ok vals → ∃ ix shape, rawRead a ix = .ok (shape, vals)) := by
+  refine ⟨rfl, ?_⟩
+  intro vals h
+  unfold linkValues at h
+  split at h
+  · cases h
+  · split at h
+    · cases h
+    · refine ⟨some (idx.map fun i => if i = -1 then fullSlice else AxisIx.int i), ?_⟩
+      cases hr : rawRead a (some (idx.map fun i => if i = -1 then fullSlice else AxisIx.int i)) with
+      | error e => simp [hr, bind, Except.bind] at h
+      | ok sv =>
+        obtain ⟨shape, vs⟩ := sv
+        simp only [hr, bind, Except.bind, Except.ok.injEq] at h
+        subst h
+        exact ⟨shape, rfl⟩
 
 /-- **only the last assignment counts.** After *any* history (calibration changes, refusals, reads,
 writes, reopening), assigning coefficients `c :: cs` and origin `o` makes every read what it is for the
@@ -515,6 +577,8 @@ example : readData { exArr with dtype := .float32, coeffs := none } (some [.int 
     = .ok ⟨.float64, [1], [-1 / 2]⟩ := by decide +kernel
 example : (step exArr (.setCoeffs (.scalar 5))).2 = .err .typeError := by decide +kernel
 example : (step exArr (.read (some [.int 2]))).2 = .err .indexError := by decide +kernel
+example : linkValues exArr [1, -1] = .ok [3, 4, 5] := by decide +kernel
+example : linkValues exArr [-1, -1] = .error .valueError := by decide +kernel
 example : readData (exec exArr [.write [5, 4, 3, 2, 1, 0]]) (some [.int 0])
     = .ok ⟨.float64, [3], [10, 8, 6]⟩ := by decide +kernel
 
